@@ -1,5 +1,7 @@
 import Yaep.Lemmas.Trees
 import Yaep.Lemmas.Chart
+import Yaep.Lemmas.DepthBound
+import Yaep.Lemmas.Analysis
 import Yaep.Lemmas.Examples
 /-!
 # C02 — the parse result is the documented translation of a derivation of the input
@@ -354,6 +356,90 @@ example : derivSym { rules := [{ lhs := 0, rhs := [] }] } [] 1 (.n 0) 1 1 = [.no
 example : derivSymP { rules := [{ lhs := 0, rhs := [] }] } []
     (chart { rules := [{ lhs := 0, rhs := [] }] } []) 1 (.n 0) 1 1 = [] := by decide +kernel
 example : chart { rules := [{ lhs := 0, rhs := [] }] } [] = [(0, 0, 0)] := by decide +kernel
+
+end C02Ex
+
+/-! ## the fuel of `derivations` suffices for grammars without cycles
+
+Without the depth side condition of `derivations_spec`: in a grammar without cycles
+(`¬ Cyclic g`, decidable as `g.loopSet = []`, see `loop_exists_iff` in C10) whose symbol
+numbers are in range, every derivation of an input of length `n` has nesting depth at most
+`nN + (nN + 1) * n ≤ derivFuel n`, so `derivations` / `derivationsP` list *all* derivations.
+With a cycle there are derivations of every depth and no fuel suffices (last examples). -/
+
+/-- a derivation is a derivation in the sense of `Der` (the notion `Cyclic`, `Nullable`, …
+are stated with) -/
+theorem validAt_der {g : Grammar} {toks : List Nat} {pt : PT} {X : Sym} {i j : Nat}
+    (h : PT.ValidAt g toks pt X i j) : Der g [X] pt.yield :=
+  h.der
+
+theorem isDerivation_der {g : Grammar} {toks : List Nat} {pt : PT}
+    (h : PT.IsDerivation g toks pt) : Der g [.n g.axiomN] toks := by
+  have := validAt_der h
+  rwa [IsDerivation_yield h] at this
+
+/-- the depth of a derivation of `toks[i, j)` in a grammar without cycles -/
+theorem depth_bound_span {g : Grammar} {toks : List Nat} (hc : ¬ Cyclic g)
+    (hr : g.symsInRange = true) {pt : PT} {A i j : Nat}
+    (h : PT.ValidAt g toks pt (.n A) i j) : pt.depth ≤ g.nN + (g.nN + 1) * (j - i) :=
+  depth_le_span hc hr h
+
+/-- every derivation of the input fits into the fuel of the enumerator -/
+theorem depth_bound {g : Grammar} {toks : List Nat} (hc : ¬ Cyclic g)
+    (hr : g.symsInRange = true) {pt : PT} (h : PT.IsDerivation g toks pt) :
+    pt.depth ≤ g.derivFuel toks.length :=
+  Nat.le_trans (depth_bound_span hc hr h) (span_bound_le_derivFuel g toks.length)
+
+/-- `derivations` lists exactly the derivations of the input -/
+theorem derivations_complete {g : Grammar} {toks : List Nat} (hc : ¬ Cyclic g)
+    (hr : g.symsInRange = true) (pt : PT) :
+    pt ∈ derivations g toks ↔ PT.IsDerivation g toks pt := by
+  rw [derivations_spec]
+  exact ⟨fun h => h.1, fun h => ⟨h, depth_bound hc hr h⟩⟩
+
+/-- and so does the pruned enumerator the judge runs -/
+theorem derivationsP_complete {g : Grammar} {toks : List Nat} (hc : ¬ Cyclic g)
+    (hr : g.symsInRange = true) (pt : PT) :
+    pt ∈ derivationsP g toks ↔ PT.IsDerivation g toks pt := by
+  rw [derivationsP_eq]; exact derivations_complete hc hr pt
+
+/-- the same with the decidable side conditions the judge can evaluate -/
+theorem derivationsP_complete_of_loopSet {g : Grammar} {toks : List Nat} (hl : g.loopSet = [])
+    (hr : g.symsInRange = true) (pt : PT) :
+    pt ∈ derivationsP g toks ↔ PT.IsDerivation g toks pt :=
+  derivationsP_complete (fun h => loopSet_ne_nil_of_cyclic g h hl) hr pt
+
+namespace C02Ex
+
+example : g.symsInRange = true := by decide
+example : pt.depth ≤ g.derivFuel toks.length := depth_bound g_acyclic (by decide) valid
+example : (a 0).depth ≤ g.nN + (g.nN + 1) * (1 - 0) :=
+  depth_bound_span (toks := toks) (A := 1) g_acyclic (by decide)
+    (.node (rl := g.rules[2]) rfl rfl (.cons (.leaf rfl) .nil))
+example : pt ∈ derivations g toks := (derivations_complete g_acyclic (by decide) pt).2 valid
+example : pt ∈ derivationsP g toks := (derivationsP_complete g_acyclic (by decide) pt).2 valid
+example : pt ∈ derivationsP g toks :=
+  (derivationsP_complete_of_loopSet (by decide) (by decide) pt).2 valid
+/-- every derivation of `a + a` is the one enumerated -/
+example : ∀ t, PT.IsDerivation g toks t → t ∈ derivations g toks :=
+  fun t h => (derivations_complete g_acyclic (by decide) t).2 h
+example : Der g [.n 0] toks := isDerivation_der valid
+example : Der g [.n 1] [2, 3, 2] :=
+  validAt_der (toks := toks) (pt := .node 1 [a 0, .leaf 3 1, a 2]) (i := 0) (j := 3)
+    (.node (rl := g.rules[1]) rfl rfl validKids)
+
+/-- with a cycle the statement fails: `A : A | 'a'` has derivations of `a` of every depth,
+`ptL 11` has depth 13 > `derivFuel 2 = 12` -/
+example : Cyclic gLoop := (⟨1, .single ⟨1, gLoop.rules[1], 0, rfl, rfl, rfl, by
+  intro j s hj hs
+  match j, hj, hs with
+  | j + 1, _, hs => simp [gLoop] at hs⟩⟩ : Cyclic gLoop)
+example : gLoop.loopSet ≠ [] := by decide
+example : PT.IsDerivation gLoop toksL (ptL 11) := ptL_valid 11
+example : ptL 11 ∉ derivations gLoop toksL := fun h => by
+  have := ((derivations_spec gLoop toksL (ptL 11)).1 h).2
+  rw [ptL_depth] at this
+  exact absurd this (by decide)
 
 end C02Ex
 
